@@ -2,7 +2,7 @@
 # run_on_seed.sh <patch.diff> <Cxx> [tier]: apply the seeded change to /repo, run the check, undo it.
 p=$1; prop=$2; tier=${3:-quick}
 git -C /repo apply "$p" || { echo "patch does not apply to /repo"; exit 3; }
-cd /verif && ./check "$prop" --tier "$tier" > /tmp/seedrun.out 2>&1; rc=$?
+cd /verif && VERIF_EVIDENCE_DIR=/tmp/seed_evidence ./check "$prop" --tier "$tier" > /tmp/seedrun.out 2>&1; rc=$?
 git -C /repo checkout -- .
 grep -c "^VIOLATION" /tmp/seedrun.out | sed 's/^/violations printed: /'
 grep -m3 -A1 "^VIOLATION" /tmp/seedrun.out | cut -c1-400
